@@ -2,6 +2,7 @@
    Imports only model files (core Lean), so it links as a native executable. -/
 import ZV.Driver.C04
 import ZV.Driver.C05
+import ZV.Driver.C06
 import ZV.Driver.C08
 import ZV.Driver.C11
 
@@ -9,6 +10,7 @@ def dispatch (line : String) : String :=
   match line.trimAscii.toString.splitOn " " with
   | "c04" :: ws => ZV.Driver.C04.handle ws
   | "c05" :: ws => ZV.Driver.C05.handle ws
+  | "c06" :: ws => ZV.Driver.C06.handle ws
   | "c08" :: ws => ZV.Driver.C08.handle ws
   | "c11" :: ws => ZV.Driver.C11.handle ws
   | _ => "bad-op"
